@@ -142,6 +142,16 @@ func (f *frame) execInstr(in ssa.Instruction, cur *State) {
 		case arrPtr:
 			f.safe(cur, "index", f.srcLabel(x.Pos()), fmt.Sprintf("(and (<= 0 %s) (< %s %s))", idx, idx, b.n), x.Pos(), "index within array length")
 			f.env[x] = f.elemAddr(b.arr, idx, b.elem)
+		case adv:
+			at, ok := b.typ.Underlying().(*types.Array)
+			if !ok {
+				unsup("IndexAddr on address of %s", typeStr(b.typ))
+			}
+			if _, isS := isStruct(at.Elem()); isS {
+				unsup("IndexAddr on global array of structs")
+			}
+			f.safe(cur, "index", f.srcLabel(x.Pos()), fmt.Sprintf("(and (<= 0 %s) (< %s %d))", idx, idx, at.Len()), x.Pos(), "index within array length")
+			f.env[x] = adv{b.base + "[]", append(append([]Term{}, b.idx...), idx), at.Elem()}
 		default:
 			unsup("IndexAddr on %T", b)
 		}
